@@ -2,11 +2,14 @@
 """C20: regenerates coq/Gen/SyncSites.v from the working tree of $VERIF_REPO (default /repo).
 
 Inventory of synchronisation-relevant sites of the evaluation path:
-  * every `.read()` / `.write()` lock acquisition in the anchored files, with the enclosing function, whether it sits in a
+  * every `.read()` / `.write()` / `.lock()` (and try_ variants) acquisition in EVERY source file of the evaluation-path crates
+    (model-evaluator, feel, feel-number, feel-evaluator, feel-parser, common, model), with the enclosing function, whether it sits in a
     closure, and its phase: build (function new / build* / add_invocable* / default / from / try_from, outside closures) or
     evaluation (everything else, in particular every evaluator closure and every evaluate* function);
   * every static of the evaluation-path crates (lazy_static entries, plain statics, static mut, thread_local!) with a flag
     saying whether its type mentions interior mutability (Mutex, RwLock, RefCell, Cell, UnsafeCell, Atomic*, Once*);
+  * every struct field of type Mutex / Atomic* / UnsafeCell / Once* (RwLock fields are covered by their acquisitions: a write
+    acquisition outside the build functions is a violation wherever the lock lives);
   * every `unsafe impl Send/Sync`;
   * every use of DEFAULT_CONTEXT in feel-number/src/dec.rs with a flag saying whether it is `.clone()`d (private context copy
     per FFI call), and every extern call that receives a context argument that is not such a copy.
@@ -22,7 +25,7 @@ REPO = os.path.abspath(os.environ.get('VERIF_REPO', '/repo'))
 LOCK_FILES = ['model-evaluator/src/model_evaluator.rs', 'model-evaluator/src/builders/decision.rs',
               'model-evaluator/src/builders/decision_service.rs', 'feel/src/evaluator.rs', 'feel/src/scope.rs',
               'feel-number/src/dec.rs', 'feel/src/temporal/mod.rs']
-EVAL_CRATES = ['model-evaluator', 'feel', 'feel-number', 'feel-evaluator', 'feel-parser', 'common']
+EVAL_CRATES = ['model-evaluator', 'feel', 'feel-number', 'feel-evaluator', 'feel-parser', 'common', 'model']
 BUILD_FN = re.compile(r'^(new|build.*|add_invocable.*|default|from|try_from)$')
 MUTABLE = re.compile(r'\b(Mutex|RwLock|RefCell|Cell|UnsafeCell|Atomic[A-Za-z0-9]*|OnceCell|Once|Lazy)\b')
 
@@ -86,7 +89,7 @@ def scopes(text):
     stack = []       # entries: ('fn', name) | ('closure',) | ('block',)
     pending = None
     info = {}
-    tok = re.compile(r'\bfn\s+([A-Za-z_][A-Za-z0-9_]*)|\bmove\s*\||\|[^|\n]*\|\s*(?=\{)|[{};]|\.(read|write)\(\)')
+    tok = re.compile(r'\bfn\s+([A-Za-z_][A-Za-z0-9_]*)|\bmove\s*\||\|[^|\n]*\|\s*(?=\{)|[{};]|\.(read|write|lock|try_read|try_write|try_lock)\(\)')
     for m in tok.finditer(text):
         t = m.group(0)
         if m.group(1):
@@ -122,16 +125,28 @@ def collect():
     sites = []
     locks = {}
     for rel in LOCK_FILES:
-        p = os.path.join(REPO, rel)
-        if not os.path.exists(p):
+        if not os.path.exists(os.path.join(REPO, rel)):
             sites.append((rel, 0, 'SMissingFile', True, ''))
-            continue
+    lock_files = []
+    for crate in EVAL_CRATES:
+        for d, _, fs in sorted(os.walk(os.path.join(REPO, crate, 'src'))):
+            for f in sorted(fs):
+                if f.endswith('.rs'):
+                    lock_files.append(os.path.relpath(os.path.join(d, f), REPO))
+    # the anchored files first (stable lock numbering), then every other source file of the evaluation-path crates
+    lock_files = [r for r in LOCK_FILES if r in lock_files] + [r for r in lock_files if r not in LOCK_FILES]
+    for rel in lock_files:
+        p = os.path.join(REPO, rel)
         text = no_tests(strip(open(p, errors='replace').read()))
         for pos, (fn, clo, kind) in sorted(scopes(text).items()):
             recv = receiver(text, pos)
             lid = locks.setdefault(recv, len(locks))
             evalp = clo or not BUILD_FN.match(fn or '')
-            sites.append((rel, line_of(text, pos), 'SLock %s %d' % ('true' if kind == 'write' else 'false', lid), evalp, fn))
+            is_write = kind in ('write', 'lock', 'try_write', 'try_lock')
+            sites.append((rel, line_of(text, pos), 'SLock %s %d' % ('true' if is_write else 'false', lid), evalp, fn))
+        # shared mutable state held in a struct: a field whose type allows mutation through a shared reference from several threads
+        for m in re.finditer(r'^\s*(?:pub(?:\([a-z]+\))?\s+)?([a-z_][A-Za-z0-9_]*)\s*:\s*([^,\n{}]*\b(?:Mutex|Atomic[A-Za-z0-9]*|UnsafeCell|OnceCell|Once)\b[^,\n{}]*),?\s*$', text, re.M):
+            sites.append((rel, line_of(text, m.start(1)), 'SField true', True, m.group(1)))
     for crate in EVAL_CRATES:
         base = os.path.join(REPO, crate, 'src')
         for d, _, fs in sorted(os.walk(base)):
@@ -174,6 +189,56 @@ def collect():
     return sites, locks
 
 
+def fn_body(text, name):
+    """text of the body of `fn name` (first definition), or ''"""
+    m = re.search(r'\bfn\s+%s\b' % re.escape(name), text)
+    if not m:
+        return ''
+    i = text.find('{', m.end())
+    if i < 0:
+        return ''
+    depth, j = 0, i
+    while j < len(text):
+        if text[j] == '{':
+            depth += 1
+        elif text[j] == '}':
+            depth -= 1
+            if depth == 0:
+                break
+        j += 1
+    return text[i:j + 1]
+
+
+def call_path(sites, locks):
+    """the lock acquisitions of one evaluation of a decision that requires another decision, in call order:
+    evaluate_invocable (its own acquisitions), evaluate_decision (accessors it calls), then twice the accessors the
+    decision evaluator closure calls (the outer decision and the required decision evaluated while the outer guards are held).
+    Accessor = a function of model_evaluator.rs whose body acquires a lock; its kind (read / write) is what the body says."""
+    p = os.path.join(REPO, 'model-evaluator/src/model_evaluator.rs')
+    q = os.path.join(REPO, 'model-evaluator/src/builders/decision.rs')
+    if not (os.path.exists(p) and os.path.exists(q)):
+        return []
+    me = no_tests(strip(open(p, errors='replace').read()))
+    dec = no_tests(strip(open(q, errors='replace').read()))
+    acc = {}
+    for rel, line, kind, evalp, fn in sites:
+        if rel == 'model-evaluator/src/model_evaluator.rs' and kind.startswith('SLock') and evalp and fn not in ('evaluate_invocable',):
+            w, lid = kind.split()[1] == 'true', int(kind.split()[2])
+            acc.setdefault(fn, []).append((w, lid))
+    path = []
+    for rel, line, kind, evalp, fn in sites:
+        if rel == 'model-evaluator/src/model_evaluator.rs' and kind.startswith('SLock') and fn == 'evaluate_invocable':
+            path.append((kind.split()[1] == 'true', int(kind.split()[2])))
+    for m in re.finditer(r'self\s*\.\s*([a-z_]+)\s*\(\s*\)', fn_body(me, 'evaluate_decision')):
+        path.extend(acc.get(m.group(1), []))
+    closure = []
+    k = dec.find('move |')
+    body = dec[k:] if k >= 0 else ''
+    for m in re.finditer(r'model_evaluator\s*\.\s*([a-z_]+)\s*\(\s*\)', body):
+        closure.extend(acc.get(m.group(1), []))
+    return path + closure + closure
+
+
 def render(sites, locks):
     out = ['(* GENERATED by translators/syncsites2coq.py from %s — do not edit, not in git *)' % REPO,
            'From Coq Require Import List NArith Bool String.', 'From DV Require Import C20.Sites.', 'Import ListNotations.',
@@ -185,6 +250,9 @@ def render(sites, locks):
         rows.append('  {| sfile := "%s"; sline := %d%%N; skind := %s; seval := %s; sfn := "%s" |}' % (rel, line, kind, 'true' if evalp else 'false', fn))
     out.append(';\n'.join(rows))
     out.append('].')
+    out.append('')
+    out.append('(* lock acquisitions of one nested decision evaluation, in call order (is_write, lock) *)')
+    out.append('Definition call_path : list (bool * nat) := [%s].' % '; '.join('(%s, %d)' % ('true' if w else 'false', l) for w, l in call_path(sites, locks)))
     return '\n'.join(out) + '\n'
 
 
